@@ -88,6 +88,7 @@ struct Agg {
     t_nested_runs: u64,
     t_desc_nodes: u64,
     t_near: BTreeMap<&'static str, u64>,
+    t_coop: [u64; 4],
     // sessions
     s: SessionsRunStats,
     restart_queries: u64,
@@ -132,6 +133,10 @@ impl Agg {
                 for l in &t.near_miss_labels {
                     *self.t_near.entry(l).or_insert(0) += 1;
                 }
+                self.t_coop[0] += t.coop_runs;
+                self.t_coop[1] += t.coop_yields;
+                self.t_coop[2] += t.coop_switches;
+                self.t_coop[3] += t.coop_stalled;
             }
             Stats::S(s) => {
                 if s.nontrivial {
@@ -172,6 +177,9 @@ impl Agg {
         for (k, v) in o.t_near {
             *self.t_near.entry(k).or_insert(0) += v;
         }
+        for i in 0..4 {
+            self.t_coop[i] += o.t_coop[i];
+        }
         add_sessions(&mut self.s, &o.s);
         self.restart_queries += o.restart_queries;
         self.restart_disagreements += o.restart_disagreements;
@@ -206,6 +214,15 @@ fn add_sessions(a: &mut SessionsRunStats, s: &SessionsRunStats) {
     a.cross_format_pairs += s.cross_format_pairs;
     a.long_sessions += s.long_sessions;
     a.soak_runs += s.soak_runs;
+    a.coop_runs += s.coop_runs;
+    a.coop_threads += s.coop_threads;
+    a.coop_ops += s.coop_ops;
+    a.coop_yields += s.coop_yields;
+    a.coop_switches += s.coop_switches;
+    a.coop_stalled += s.coop_stalled;
+    for i in 0..8 {
+        a.coop_sites[i] += s.coop_sites[i];
+    }
     a.skipped_panicking += s.skipped_panicking;
     for m in 0..32 {
         for c in 0..4 {
@@ -855,7 +872,15 @@ fn run_batch(opts: &Opts) -> Result<u8, String> {
         // violations of this block, lowest run index first (deterministic choice)
         let mut v = std::mem::take(&mut agg.violating);
         v.sort_by_key(|x| x.0);
-        for (i, data, viol, hist) in v {
+        // runs whose violation is a function of their own decisions first (cheap test: replay on a
+        // fresh thread of this process); the others - seen only because of what happened before on
+        // the thread or elsewhere in the process - are tried afterwards, and only a few of them
+        let (mut own, mut other): (Vec<_>, Vec<_>) = v.into_iter().partition(|(_, data, _, _)| {
+            (0..2).any(|_| run_fresh_thread(kind, data, false).violations.iter().any(|x| x.prop == prop))
+        });
+        other.truncate(3);
+        own.extend(other);
+        for (i, data, viol, hist) in own {
             let kind_s = viol.kind.clone();
             std::fs::create_dir_all(&opts.replay_dir).map_err(|e| format!("{}: {e}", opts.replay_dir))?;
             let path = format!("{}/{}-seed{}-run{}.json", opts.replay_dir, prop, opts.seed, i);
@@ -1145,6 +1170,10 @@ fn evidence_json(opts: &Opts, kind: SimKind, prop: &'static str, agg: &Agg, wall
                     ("count", J::u(agg.layouts.len() as u64 * scale)),
                 ]),
             ));
+            cov.push((
+                "concurrent_caller_phases",
+                J::obj(vec![("runs", J::u(agg.t_coop[0])), ("yield_points_passed_in_hash_and_eq", J::u(agg.t_coop[1])), ("thread_switches_decided_by_the_scheduler", J::u(agg.t_coop[2])), ("stalled_runs_without_verdict", J::u(agg.t_coop[3]))]),
+            ));
             cov.push(("twin_pairs", J::u(agg.t_twin_pairs)));
             cov.push(("twin_pairs_with_different_layout", J::u(agg.t_twin_manifested)));
             cov.push(("unequal_pairs_checked", J::u(agg.t_unequal_pairs)));
@@ -1216,6 +1245,18 @@ fn evidence_json(opts: &Opts, kind: SimKind, prop: &'static str, agg: &Agg, wall
                     ("measure", J::s("cells hit of the 32 x 4 grid (slots still filled when the session state was re-targeted: budget,term,punctuation,stamp,truth as bits 0-4) x (class of the next request alone: task, sentence, term, err)")),
                     ("count", J::u(cells)),
                     ("rows", J::Obj(grid)),
+                ]),
+            ));
+            cov.push((
+                "concurrent_caller_runs",
+                J::obj(vec![
+                    ("runs", J::u(s.coop_runs)),
+                    ("caller_threads", J::u(s.coop_threads)),
+                    ("operations", J::u(s.coop_ops)),
+                    ("yield_points_passed", J::u(s.coop_yields)),
+                    ("thread_switches_decided_by_the_scheduler", J::u(s.coop_switches)),
+                    ("stalled_runs_without_verdict", J::u(s.coop_stalled)),
+                    ("yield_sites", J::obj(vec![("enum_term_parser", J::u(s.coop_sites[1])), ("lexical_term_parser", J::u(s.coop_sites[2])), ("lexical_fold", J::u(s.coop_sites[3])), ("term_hash", J::u(s.coop_sites[4])), ("term_eq", J::u(s.coop_sites[5]))])),
                 ]),
             ));
             cov.push(("restart_oracle_process_histories", J::u(agg.restart_segments)));
